@@ -90,7 +90,7 @@ def run(ctx):
         if i % 3:
             cfg[15] = 0                 # two thirds without a cap
         cases.append((cfg, toys.gen_signal(ctx.rng)))
-    mo = ctx.model_outputs(IMPORTS, ['(%s, %s)' % (zlist(c), zlist(x)) for c, x in cases], 'fun c => run_toy_sift (fst c) (snd c)', shard=150)
+    mo = ctx.model_outputs(IMPORTS, ['(%s, %s)' % (zlist(c), zlist(x)) for c, x in cases], 'fun c => run_toy_sift (fst c) (snd c)', shard=25)
     bad = []
     for (cfg, x), exp in zip(cases, mo):
         got, discard = siftcore.impl_toy_sift(cfg, x)
